@@ -18,6 +18,7 @@ import GdVerif.Run.Dispatch
 import GdVerif.Run.IdCheck
 import GdVerif.Run.Real
 import GdVerif.Run.Cli
+import GdVerif.Run.CliPlan
 import GdVerif.Run.Quake
 import GdVerif.Run.GenQuake
 import GdVerif.Run.QuakeFaults
@@ -62,6 +63,7 @@ def allEntries : List (String × (List String → String)) := List.flatten [
   idCheckEntries,
   realEntries,
   cliEntries,
+  cliPlanEntries,
   quakeEntries,
   quakeFaultEntries,
   unreal2Entries,
